@@ -558,4 +558,348 @@ theorem publish_only_when_ready (s : State) (ev : Event) (h : InvReg s) (hp : (s
   | setRegDrop b => exact absurd rfl hp
   | setPubFail n => exact absurd rfl hp
 
+/-! ### the aggregator's side of the offsets -/
+
+theorem regsFor_append (l l' : List (Nat × Reg)) (e : Nat) : regsFor (l ++ l') e = regsFor l e ++ regsFor l' e := by
+  simp [regsFor]
+
+theorem regsFor_append_other (l : List (Nat × Reg)) (r e : Nat) (x : Reg) (h : r ≠ e) :
+    regsFor (l ++ [(r, x)]) e = regsFor l e := by
+  rw [regsFor_append]
+  have : regsFor [(r, x)] e = [] := by simp [regsFor, h]
+  rw [this, List.append_nil]
+
+theorem regsFor_map_other (l : List (Nat × Reg)) (r e : Nat) (xs : List Reg) (h : r ≠ e) :
+    regsFor (l ++ xs.map (fun x => (r, x))) e = regsFor l e := by
+  rw [regsFor_append]
+  have : regsFor (xs.map (fun x => (r, x))) e = [] := by
+    simp [regsFor, List.filter_eq_nil_iff, h]
+  rw [this, List.append_nil]
+
+/-- what `register_signer_to_aggregator` can do to the aggregator and to the tables the offsets depend on -/
+structure AggFrame (s : State) (d : EpochData) (s' : State) (go : Bool) : Prop where
+  data : s'.data = s.data
+  pubs : s'.pubs = s.pubs
+  stakes : s'.st.stakes = s.st.stakes
+  epoch : s'.env.epoch = s.env.epoch
+  aggEpoch : s'.env.aggEpoch = s.env.aggEpoch
+  aggReg : s'.env.aggReg = s.env.aggReg ∨ ∃ k, s'.env.aggReg = s.env.aggReg ++ [(recording d.epoch, ⟨0, k⟩)]
+  go : go = true → (lookup s.st.stakes (recording d.epoch)).isSome = true ∧ s'.mach = s.mach
+  notReady : ∀ e, s'.mach = .ready e → s.mach = .ready e
+
+theorem registerSigner_agg (s : State) (d : EpochData) :
+    AggFrame s d (registerSigner s d).1 (registerSigner s d).2 := by
+  unfold registerSigner
+  dsimp only
+  split
+  · exact ⟨rfl, rfl, rfl, rfl, rfl, Or.inl rfl, fun h => by simp at h, fun _ h => h⟩
+  rename_i v hv
+  have hs : (lookup s.st.stakes (recording d.epoch)).isSome = true := by rw [hv]; rfl
+  split
+  · exact ⟨rfl, rfl, rfl, rfl, rfl, Or.inl rfl, fun _ => ⟨hs, rfl⟩, fun _ h => h⟩
+  split
+  · exact ⟨rfl, rfl, rfl, rfl, rfl, Or.inl rfl, fun h => by simp at h, fun _ h => by simp at h⟩
+  split
+  · exact ⟨rfl, rfl, rfl, rfl, rfl, Or.inl rfl, fun h => by simp at h, fun _ h => h⟩
+  · refine ⟨rfl, rfl, rfl, rfl, rfl, ?_, fun _ => ⟨hs, rfl⟩, fun _ h => h⟩
+    by_cases hdrop : s.env.regDrop = true
+    · left; simp [hdrop]
+    · right; exact ⟨s.env.nextKey, by simp [hdrop]⟩
+
+structure InvAgg (s : State) : Prop where
+  /-- the aggregator records registrations under its current epoch + 1 at most: lists of earlier epochs are closed -/
+  aggRec : ∀ p ∈ s.env.aggReg, p.1 ≤ s.env.aggEpoch + 1
+  /-- the signer's current-signer list is the aggregator's list recorded under the retrieval epoch -/
+  dataCur : ∀ d, s.data = some d → d.cur = regsFor s.env.aggReg (retrieval d.epoch) ∧ d.epoch ≤ s.env.aggEpoch
+  /-- stake distributions are stored under chain epoch + 1 at most -/
+  stakesLe : ∀ p ∈ s.st.stakes, p.1 ≤ s.env.epoch + 1
+  /-- `ReadyToSign e`: `e` is not ahead of the chain and the epoch data are those of `e` -/
+  ready : ∀ e, s.mach = .ready e → e ≤ s.env.epoch ∧ ∀ d, s.data = some d → d.epoch = e
+  /-- every publication was made in its own chain epoch with a key the aggregator lists for that epoch -/
+  pubsAgg : ∀ p ∈ s.pubs, p.aggEpoch = p.chainEpoch ∧ p.aggEpoch ≤ s.env.aggEpoch ∧
+    (⟨0, p.key⟩ : Reg) ∈ regsFor s.env.aggReg (retrieval p.aggEpoch)
+
+theorem prune_stakes_sub (ret : Option Nat) (t : Nat) (st : Stores) (p : Nat × Nat) (h : p ∈ (prune ret t st).stakes) :
+    p ∈ st.stakes := by
+  unfold prune at h
+  cases ret with
+  | none => exact h
+  | some l => exact (List.mem_filter.mp h).1
+
+/-- a step that only touches fields the aggregator-side invariant does not read -/
+theorem InvAgg.same {s s' : State} (a : InvAgg s) (h1 : s'.env.aggReg = s.env.aggReg) (h2 : s'.env.aggEpoch = s.env.aggEpoch)
+    (h3 : s'.data = s.data) (h4 : s'.st.stakes = s.st.stakes) (h5 : s'.env.epoch = s.env.epoch) (h6 : s'.pubs = s.pubs)
+    (h7 : ∀ e, s'.mach = .ready e → s.mach = .ready e) : InvAgg s' :=
+  ⟨by rw [h1, h2]; exact a.aggRec, by rw [h1, h2, h3]; exact a.dataCur, by rw [h4, h5]; exact a.stakesLe,
+   by rw [h3, h5]; exact fun e he => a.ready e (h7 e he), by rw [h1, h2, h6]; exact a.pubsAgg⟩
+
+/-- appending a registration for the aggregator's recording epoch keeps the closed lists closed -/
+theorem InvAgg.appendReg {s : State} (a : InvAgg s) (x : Reg) (aggReg' : List (Nat × Reg))
+    (h : aggReg' = s.env.aggReg ∨ aggReg' = s.env.aggReg ++ [(recording s.env.aggEpoch, x)]) :
+    (∀ p ∈ aggReg', p.1 ≤ s.env.aggEpoch + 1) ∧
+    (∀ e, e ≤ s.env.aggEpoch → regsFor aggReg' (retrieval e) = regsFor s.env.aggReg (retrieval e)) ∧
+    (∀ y e, y ∈ regsFor s.env.aggReg e → y ∈ regsFor aggReg' e) := by
+  rcases h with h | h
+  · subst h; exact ⟨a.aggRec, fun _ _ => rfl, fun _ _ hy => hy⟩
+  · subst h
+    refine ⟨?_, ?_, ?_⟩
+    · intro p hp
+      rcases List.mem_append.mp hp with hp | hp
+      · exact a.aggRec p hp
+      · simp only [List.mem_singleton] at hp; subst hp; unfold recording; omega
+    · intro e he
+      apply regsFor_append_other
+      unfold recording retrieval; omega
+    · intro y e hy
+      rw [regsFor_append]; exact List.mem_append_left _ hy
+
+theorem updStakes_le (s : State) (a : InvAgg s) : ∀ p ∈ updStakes s, p.1 ≤ s.env.epoch + 1 := by
+  unfold updStakes
+  split
+  · exact a.stakesLe
+  · intro p hp
+    rcases List.mem_append.mp hp with hp | hp
+    · exact a.stakesLe p hp
+    · simp only [List.mem_singleton] at hp; subst hp; unfold recording; omega
+
+theorem lookup_isSome_mem (l : List (Nat × Nat)) (e : Nat) (h : (lookup l e).isSome = true) : ∃ v, (e, v) ∈ l := by
+  cases hl : lookup l e with
+  | none => rw [hl] at h; cases h
+  | some v => exact ⟨v, lookup_mem l e v hl⟩
+
+theorem registerStep_agg (s : State) (d : EpochData) (r : InvReg s) (a : InvAgg s)
+    (hd1 : d.epoch = s.env.aggEpoch) (hd2 : d.cur = regsFor s.env.aggReg (retrieval d.epoch))
+    (hm : ∀ e, s.mach ≠ .ready e) (het : s.env.epoch ≤ d.epoch) : InvAgg (registerStep s d) := by
+  unfold registerStep
+  dsimp only
+  have hst := updStakes_le s a
+  generalize hs1 : ({ s with st := { s.st with stakes := updStakes s }, data := some d } : State) = s1
+  have d1 : s1.data = some d := by subst hs1; rfl
+  have m1 : s1.mach = s.mach := by subst hs1; rfl
+  have k1 : s1.st.stakes = updStakes s := by subst hs1; rfl
+  have e1 : s1.env = s.env := by subst hs1; rfl
+  have p1 : s1.pubs = s.pubs := by subst hs1; rfl
+  have f := registerSigner_agg s1 d
+  have hreg : (registerSigner s1 d).1.env.aggReg = s.env.aggReg ∨
+      ∃ k, (registerSigner s1 d).1.env.aggReg = s.env.aggReg ++ [(recording s.env.aggEpoch, ⟨0, k⟩)] := by
+    rcases f.aggReg with h | ⟨k, h⟩
+    · left; rw [h, e1]
+    · right; exact ⟨k, by rw [h, e1, hd1]⟩
+  -- facts shared by both outcomes
+  have common : ∀ s2 : State, s2.env.aggReg = (registerSigner s1 d).1.env.aggReg → s2.env.aggEpoch = s.env.aggEpoch →
+      s2.pubs = s.pubs →
+      (∀ p ∈ s2.env.aggReg, p.1 ≤ s2.env.aggEpoch + 1) ∧
+      (d.cur = regsFor s2.env.aggReg (retrieval d.epoch) ∧ d.epoch ≤ s2.env.aggEpoch) ∧
+      (∀ p ∈ s2.pubs, p.aggEpoch = p.chainEpoch ∧ p.aggEpoch ≤ s2.env.aggEpoch ∧
+        (⟨0, p.key⟩ : Reg) ∈ regsFor s2.env.aggReg (retrieval p.aggEpoch)) := by
+    intro s2 h1 h2 h3
+    rw [h1, h2, h3]
+    rcases hreg with h | ⟨k, h⟩
+    · obtain ⟨c1, c2, c3⟩ := a.appendReg ⟨0, 0⟩ _ (Or.inl h)
+      refine ⟨c1, ⟨by rw [c2 d.epoch (by omega)]; exact hd2, by omega⟩, ?_⟩
+      intro p hp
+      obtain ⟨q1, q2, q3⟩ := a.pubsAgg p hp
+      exact ⟨q1, q2, c3 _ _ q3⟩
+    · obtain ⟨c1, c2, c3⟩ := a.appendReg ⟨0, k⟩ _ (Or.inr h)
+      refine ⟨c1, ⟨by rw [c2 d.epoch (by omega)]; exact hd2, by omega⟩, ?_⟩
+      intro p hp
+      obtain ⟨q1, q2, q3⟩ := a.pubsAgg p hp
+      exact ⟨q1, q2, c3 _ _ q3⟩
+  split
+  · rename_i s2 heq
+    have e2 : (registerSigner s1 d).1 = s2 := by rw [heq]
+    rw [e2] at f
+    obtain ⟨c1, c2, c3⟩ := common s2 (by rw [e2]) (by rw [f.aggEpoch, e1]) (by rw [f.pubs, p1])
+    refine ⟨c1, ?_, by rw [f.stakes, k1, f.epoch, e1]; exact hst, ?_, c3⟩
+    · intro dd hdd
+      rw [f.data, d1] at hdd; cases hdd; exact c2
+    · intro e he
+      have := f.notReady e he
+      rw [m1] at this
+      exact absurd this (hm e)
+  · rename_i s2 heq
+    have e2 : (registerSigner s1 d).1 = s2 := by rw [heq]
+    have e3 : (registerSigner s1 d).2 = true := by rw [heq]
+    rw [e2, e3] at f
+    obtain ⟨c1, c2, c3⟩ := common s2 (by rw [e2]) (by rw [f.aggEpoch, e1]) (by rw [f.pubs, p1])
+    obtain ⟨hgo, _⟩ := f.go rfl
+    rw [k1] at hgo
+    obtain ⟨v, hv⟩ := lookup_isSome_mem _ _ hgo
+    have hle := hst _ hv
+    have hde : d.epoch = s.env.epoch := by
+      have : recording d.epoch ≤ s.env.epoch + 1 := hle
+      unfold recording at this; omega
+    refine ⟨c1, ?_, ?_, ?_, c3⟩
+    · intro dd hdd
+      have : s2.data = some dd := hdd
+      rw [f.data, d1] at this; cases this; exact c2
+    · intro p hp
+      have := prune_stakes_sub _ _ _ _ hp
+      rw [f.stakes, k1] at this
+      show p.1 ≤ s2.env.epoch + 1
+      rw [f.epoch, e1]; exact hst p this
+    · intro e he
+      dsimp only at he
+      have het' : e = s.env.epoch := by
+        by_cases hc : canSign d = true
+        · rw [if_pos hc] at he; cases he; rfl
+        · rw [if_neg hc] at he; cases he
+      subst het'
+      refine ⟨by show s.env.epoch ≤ s2.env.epoch; rw [f.epoch, e1]; exact Nat.le_refl _, ?_⟩
+      intro dd hdd
+      have : s2.data = some dd := hdd
+      rw [f.data, d1] at this; cases this; exact hde
+
+theorem tickUnreg_agg (s : State) (e : Nat) (r : InvReg s) (a : InvAgg s) (hm : s.mach = .unreg e) :
+    InvAgg (tickUnreg s e) := by
+  have hnr : ∀ e', s.mach ≠ .ready e' := by intro e' he'; rw [hm] at he'; cases he'
+  unfold tickUnreg
+  dsimp only
+  repeat' split
+  all_goals first
+    | exact a.same rfl rfl rfl rfl rfl rfl (fun _ he => by cases he)
+    | exact a.same rfl rfl rfl rfl rfl rfl (fun _ he => he)
+    | skip
+  apply registerStep_agg s _ r a rfl rfl hnr
+  dsimp only
+  omega
+
+theorem signEntity_aggFrame (s : State) (d : EpochData) (x : Entity) (lost : Bool) :
+    (signEntity s d x lost).env.aggReg = s.env.aggReg ∧ (signEntity s d x lost).env.aggEpoch = s.env.aggEpoch ∧
+    (signEntity s d x lost).st.stakes = s.st.stakes ∧ (signEntity s d x lost).env.epoch = s.env.epoch ∧
+    ((signEntity s d x lost).pubs = s.pubs ∨
+      ∃ x' k sv, d.ini = some k ∧ (signEntity s d x lost).pubs = s.pubs ++ [⟨x', k, d.epoch, s.env.epoch, sv⟩]) := by
+  have hmark : ∀ s1 : State, (mark s1 x).env.aggReg = s1.env.aggReg ∧ (mark s1 x).env.aggEpoch = s1.env.aggEpoch ∧
+      (mark s1 x).st.stakes = s1.st.stakes ∧ (mark s1 x).env.epoch = s1.env.epoch ∧ (mark s1 x).pubs = s1.pubs := by
+    intro s1; unfold mark; split <;> exact ⟨rfl, rfl, rfl, rfl, rfl⟩
+  unfold signEntity
+  repeat' split
+  all_goals first
+    | exact ⟨rfl, rfl, rfl, rfl, Or.inl rfl⟩
+    | (obtain ⟨m1, m2, m3, m4, m5⟩ := hmark s; exact ⟨m1, m2, m3, m4, Or.inl m5⟩)
+    | skip
+  rename_i k sv hk _ _ _
+  unfold publishMark
+  split
+  · exact ⟨rfl, rfl, rfl, rfl, Or.inl rfl⟩
+  split
+  · generalize hs1 : ({ s with env := _, pubs := s.pubs ++ [⟨x, k, d.epoch, s.env.epoch, sv⟩] } : State) = s1
+    obtain ⟨m1, m2, m3, m4, m5⟩ := hmark s1
+    subst hs1
+    exact ⟨m1, m2, m3, m4, Or.inr ⟨x, k, sv, hk, m5⟩⟩
+  · exact ⟨rfl, rfl, rfl, rfl, Or.inl rfl⟩
+
+theorem tickReady_agg (s : State) (e : Nat) (lost : Bool) (r : InvReg s) (a : InvAgg s) (hm : s.mach = .ready e) :
+    InvAgg (tickReady s e lost) := by
+  unfold tickReady
+  split
+  · exact a.same rfl rfl rfl rfl rfl rfl (fun _ he => by cases he)
+  rename_i hlt
+  split
+  · exact a.same rfl rfl rfl rfl rfl rfl (fun _ he => he)
+  rename_i d hd
+  split
+  · exact a.same rfl rfl rfl rfl rfl rfl (fun _ he => he)
+  split
+  · exact a.same rfl rfl rfl rfl rfl rfl (fun _ he => he)
+  rename_i x _
+  have f := signEntity_frame s d x lost
+  obtain ⟨g1, g2, g3, g4, g5⟩ := signEntity_aggFrame s d x lost
+  have hready : ∀ e', (signEntity s d x lost).mach = .ready e' → s.mach = .ready e' := by
+    intro e' he'; rw [f.mach] at he'; exact he'
+  rcases g5 with hp | ⟨x', k, sv, hk, hp⟩
+  · exact a.same g1 g2 f.data g3 g4 hp hready
+  · refine ⟨by rw [g1, g2]; exact a.aggRec, by rw [g1, g2, f.data]; exact a.dataCur, by rw [g3, g4]; exact a.stakesLe,
+      by rw [f.data, g4]; exact fun e' he' => a.ready e' (hready e' he'), ?_⟩
+    intro p hp'
+    rw [hp] at hp'
+    rw [g1, g2]
+    rcases List.mem_append.mp hp' with hp' | hp'
+    · exact a.pubsAgg p hp'
+    · simp only [List.mem_singleton] at hp'
+      subst hp'
+      obtain ⟨hle, hde⟩ := a.ready e hm
+      have hde' := hde d hd
+      obtain ⟨hc1, hc2⟩ := a.dataCur d hd
+      obtain ⟨d', hd', hcan⟩ := r.ready e hm
+      rw [hd] at hd'; cases hd'
+      unfold canSign at hcan
+      rw [hk] at hcan
+      refine ⟨by show d.epoch = s.env.epoch; omega, hc2, ?_⟩
+      show (⟨0, k⟩ : Reg) ∈ regsFor s.env.aggReg (retrieval d.epoch)
+      rw [← hc1]
+      simpa using hcan
+
+theorem step_agg (s : State) (ev : Event) (r : InvReg s) (a : InvAgg s) : InvAgg (step s ev) := by
+  cases ev with
+  | tick lost =>
+    show InvAgg (tick s lost)
+    unfold tick
+    split
+    · exact a.same rfl rfl rfl rfl rfl rfl (fun _ he => by cases he)
+    · rename_i e hm; exact tickUnreg_agg s e r a hm
+    · unfold tickNotAble
+      dsimp only
+      split
+      · exact a.same rfl rfl rfl rfl rfl rfl (fun _ he => by cases he)
+      · exact a.same rfl rfl rfl rfl rfl rfl (fun _ he => he)
+    · rename_i e hm; exact tickReady_agg s e lost r a hm
+  | restart =>
+    exact ⟨a.aggRec, fun d hd => (by cases hd), a.stakesLe, fun e he => (by cases he), a.pubsAgg⟩
+  | epochUp v =>
+    refine ⟨a.aggRec, a.dataCur, ?_, ?_, a.pubsAgg⟩
+    · intro p hp; have := a.stakesLe p hp; show p.1 ≤ s.env.epoch + 1 + 1; omega
+    · intro e he
+      obtain ⟨h1, h2⟩ := a.ready e he
+      exact ⟨by show e ≤ s.env.epoch + 1; omega, h2⟩
+  | aggEpochUp =>
+    refine ⟨?_, ?_, a.stakesLe, a.ready, ?_⟩
+    · intro p hp; have := a.aggRec p hp; show p.1 ≤ s.env.aggEpoch + 1 + 1; omega
+    · intro d hd
+      obtain ⟨h1, h2⟩ := a.dataCur d hd
+      exact ⟨h1, by show d.epoch ≤ s.env.aggEpoch + 1; omega⟩
+    · intro p hp
+      obtain ⟨h1, h2, h3⟩ := a.pubsAgg p hp
+      exact ⟨h1, by show p.aggEpoch ≤ s.env.aggEpoch + 1; omega, h3⟩
+  | regOthers rs =>
+    have hother : ∀ e, e ≤ s.env.aggEpoch →
+        regsFor (s.env.aggReg ++ rs.map (fun x => (recording s.env.aggEpoch, x))) (retrieval e) =
+          regsFor s.env.aggReg (retrieval e) := by
+      intro e he
+      apply regsFor_map_other
+      unfold recording retrieval; omega
+    refine ⟨?_, ?_, a.stakesLe, a.ready, ?_⟩
+    · intro p hp
+      rcases List.mem_append.mp hp with hp | hp
+      · exact a.aggRec p hp
+      · obtain ⟨x, _, rfl⟩ := List.mem_map.mp hp
+        show recording s.env.aggEpoch ≤ s.env.aggEpoch + 1
+        unfold recording; omega
+    · intro d hd
+      obtain ⟨h1, h2⟩ := a.dataCur d hd
+      refine ⟨?_, h2⟩
+      show d.cur = regsFor (s.env.aggReg ++ rs.map (fun x => (recording s.env.aggEpoch, x))) (retrieval d.epoch)
+      rw [hother d.epoch h2]; exact h1
+    · intro p hp
+      obtain ⟨h1, h2, h3⟩ := a.pubsAgg p hp
+      refine ⟨h1, h2, ?_⟩
+      show (⟨0, p.key⟩ : Reg) ∈ regsFor (s.env.aggReg ++ rs.map (fun x => (recording s.env.aggEpoch, x))) (retrieval p.aggEpoch)
+      rw [hother p.aggEpoch h2]; exact h3
+  | setMarkFail n => exact a.same rfl rfl rfl rfl rfl rfl (fun _ he => he)
+  | immUp n => exact a.same rfl rfl rfl rfl rfl rfl (fun _ he => he)
+  | setDown b => exact a.same rfl rfl rfl rfl rfl rfl (fun _ he => he)
+  | setRoundClosed b => exact a.same rfl rfl rfl rfl rfl rfl (fun _ he => he)
+  | setRegFail b => exact a.same rfl rfl rfl rfl rfl rfl (fun _ he => he)
+  | setRegDrop b => exact a.same rfl rfl rfl rfl rfl rfl (fun _ he => he)
+  | setPubFail n => exact a.same rfl rfl rfl rfl rfl rfl (fun _ he => he)
+
+theorem run_reg_agg (evs : List Event) (s : State) (r : InvReg s) (a : InvAgg s) :
+    InvReg (run s evs) ∧ InvAgg (run s evs) := by
+  induction evs generalizing s with
+  | nil => exact ⟨r, a⟩
+  | cons ev rest ih => exact ih (step s ev) (step_reg s ev r) (step_agg s ev r a)
+
+theorem initState_agg (env : Env) (h : env.aggReg = []) : InvAgg (initState env) :=
+  ⟨by simp [initState, h], by simp [initState], by simp [initState], by simp [initState], by simp [initState]⟩
+
 end Signer
